@@ -171,6 +171,19 @@ where
     ) {
         let store = stores.get(store_id).unwrap();
         while let Ok(c) = commands_receiver.recv() {
+            #[cfg(similari_verif)]
+            let verif_kind: u64 = match &c {
+                Commands::Drop(_) => 0,
+                Commands::FindBaked(_) => 1,
+                Commands::Distances(..) => 2,
+                Commands::Lookup(..) => 3,
+                Commands::Merge(..) => 4,
+            };
+            #[cfg(similari_verif)]
+            crate::verif_hook::at(
+                "w.cmd.start",
+                &[Arc::as_ptr(&stores) as usize as u64, store_id as u64, verif_kind],
+            );
             match c {
                 Commands::Drop(channel) => {
                     let _r = channel.send(Results::Dropped);
@@ -301,6 +314,11 @@ where
                     }
                 }
             }
+            #[cfg(similari_verif)]
+            crate::verif_hook::at(
+                "w.cmd.end",
+                &[Arc::as_ptr(&stores) as usize as u64, store_id as u64, verif_kind],
+            );
         }
     }
 
@@ -478,6 +496,9 @@ where
 
         let res = self.foreign_track_distances(tracks_vec.clone(), feature_class, only_baked);
 
+        #[cfg(similari_verif)]
+        crate::verif_hook::at("owned.sent", &[self.verif_uid()]);
+
         for t in tracks_vec {
             self.add_track(t).unwrap();
         }
@@ -496,6 +517,12 @@ where
     ///
     pub fn get_executor(&self, id: usize) -> usize {
         id % self.num_shards
+    }
+
+    /// Identity of this store in verification traces (address of the shared shard vector).
+    #[cfg(similari_verif)]
+    pub fn verif_uid(&self) -> u64 {
+        Arc::as_ptr(&self.stores) as usize as u64
     }
 
     /// Adds external track into storage
